@@ -98,6 +98,32 @@ def s_never_in_neither(root, obs):
     return errs
 
 
+def s_attached_matrix(ctx, vh):
+    """every QLayout.* attached binding x every layout class x child kind, one binding per document, against the SAME document without it: an accepted
+    binding that changes nothing in the form and draws no diagnostic was consumed silently"""
+    names = ["row", "column", "rowSpan", "columnSpan", "rowStretch", "columnStretch", "columnMinimumWidth", "rowMinimumHeight", "alignment"]
+    docs, meta = [], []
+    for lay in ("QVBoxLayout", "QHBoxLayout", "QFormLayout", "QGridLayout"):
+        for kid in ("QLabel { %s }", "QSpacerItem { %s }", "QHBoxLayout { %s }", "QPushButton { %s; text: \"t\" }"):
+            for n in names:
+                val = "Qt.AlignRight" if n == "alignment" else "3"
+                doc = lambda b: ("import qmluic.QtWidgets\nQWidget {\n  %s {\n    QLabel { }\n    QLabel { }\n    %s\n    QLabel { }\n  }\n}\n" % (lay, kid % b)).replace("{ ;", "{").replace("{  }", "{ }")
+                docs.append(doc("QLayout.%s: %s" % (n, val)))
+                docs.append(doc(""))
+                meta.append((lay, kid.split(" ")[0], n))
+    res = qml.run_docs(vh, docs, mode="generate")
+    for k, (lay, kid, n) in enumerate(meta):
+        w, wo = res[2 * k], res[2 * k + 1]
+        ctx.count(("attached-matrix", lay, kid, n), True)
+        if not isinstance(w, dict) or not isinstance(wo, dict) or "diags" not in w:
+            ctx.violation("pipeline gives no result on an attached binding", {"qml": docs[2 * k], "impl_output": str(w)[:500]})
+            continue
+        if w.get("ui") is not None and not w["diags"] and w.get("ui") == wo.get("ui") and w.get("header") == wo.get("header"):
+            ctx.violation("QLayout.%s on a %s child of a %s is accepted without diagnostic and leaves no trace: the outputs equal those of the document without the binding" % (n, kid, lay),
+                          {"qml": docs[2 * k], "impl_output": w.get("ui"), "theorem_or_correspondence": "S: differential -- a binding is in the form, in the header, or diagnosed"})
+    ctx.coverage["attached_matrix"] = len(meta)
+
+
 def s_nested_groups(ctx, vh, rng):
     """grouped values nested two levels deep (a gadget inside a header map, a gadget inside a gadget): outside the Coq model, decided on the real outputs --
     a constant leaf must be in the .ui, a dynamic leaf must be in the header or an error must lie inside the text of its binding or of an enclosing group"""
@@ -232,6 +258,7 @@ def run(ctx):
         idx.append(i)
     ctx.coverage["accepted_documents"] = accepted
     s_nested_groups(ctx, vh, rng)
+    s_attached_matrix(ctx, vh)
     # ---- planted faults: diagnosed inside the planted text
     nf = 1800 if ctx.tier == "thorough" else 150
     froots, fdocs, fkinds = [], [], []
